@@ -113,6 +113,10 @@ def http_vectors(rng: random.Random, tier_: str) -> list[dict[str, Any]]:
     for tl in (0, 1):
         for el in ((14.5, 137.25) if tier_ == 'quick' else (9.0, 14.5, 30.0, 38.5, 95.5, 137.25)):
             add('hand_made.mpd', f'start={ast.strftime("%Y-%m-%dT%H:%M:%SZ")}&depth=30' + ('&timeline=1' if tl else ''), ast + sec(el), 'renum')
+    # a stream whose audio fragments carry per-sample durations that differ from the default of their tfhd (the trun value wins)
+    for tl in (0, 1):
+        for el in ((41.0, 137.25) if tier_ == 'quick' else (12.0, 41.0, 95.5, 137.25, 3601.0)):
+            add('hand_made.mpd', f'start={ast.strftime("%Y-%m-%dT%H:%M:%SZ")}&depth=30' + ('&timeline=1' if tl else ''), ast + sec(el), 'irr')
     # a stream with option defaults of its own (time-shift buffer of 30 s): the depth a manifest resolved - given explicitly, also
     # when it equals the global default of 1800 s, or taken from the stream - is the depth its media URLs are served with
     for q in ('depth=1800', '', 'depth=600', 'depth=1800&timeline=1'):
@@ -221,6 +225,10 @@ def run(prop: str, tier_: str) -> int:
                 rf.write_bytes(renumber_mfhd((_REPO / 'tests' / 'fixtures' / 'bbb' / f'{stem}.mp4').read_bytes()))
                 rn.append((rf, f'renum_{stem[4:]}'))
             da.add_fixture('bbb', directory='renum', title='fragments numbered 1, 3, 5, ...', only={'bbb_v7'}, extra=rn)
+            from harness.synth import irregular_durations
+            irf = d / 'irr_a1.mp4'
+            irf.write_bytes(irregular_durations((_REPO / 'tests' / 'fixtures' / 'bbb' / 'bbb_a1.mp4').read_bytes()))
+            da.add_fixture('bbb', directory='irr', title='per-sample durations beside a tfhd default', only={'bbb_v7'}, extra=[(irf, 'irr_a1')])
             drv = HttpDriver(da)
             for i, v in enumerate(vecs):
                 hlines.extend(drv.live_manifest(i + 1, v.get('stream', 'bbb'), v['tmpl'], v['q'], v['now']))
